@@ -6,6 +6,9 @@
  *   VERIF_SHIM_KILL=<n>       _exit(137) right before the n-th journal syscall
  *   VERIF_SHIM_ARM_FILE=<p>   numbering / logging / faults start once this file exists
  * A "journal file" is any path ending in ".jnl" opened by this process.
+ * Not counted, only logged: `open:<name>` (which file an fd refers to), `create:<name>` (a journal file
+ * opened with O_CREAT) and `dirsync` (fsync of the directory that holds the journal files): a file created
+ * after the last `dirsync` has no durable directory entry yet.
  */
 #define _GNU_SOURCE
 #include <dlfcn.h>
@@ -66,6 +69,7 @@ static int is_jnl(const char *p) {
 }
 
 static int cur_fd = -1;
+static char jdir[1024];
 
 static void note(const char *what, long a, long res) {
     if (logfd < 0 || !armed) return;
@@ -74,9 +78,15 @@ static void note(const char *what, long a, long res) {
     real_write(logfd, b, n);
 }
 
-static void track(int fd, const char *p) {
+static int is_armed(void);
+
+static void track(int fd, const char *p, int flags) {
     if (fd >= 0 && fd < 4096) {
         jfd[fd] = is_jnl(p);
+        if (jfd[fd]) {
+            const char *slash = strrchr(p, '/');
+            if (slash && (size_t)(slash - p) < sizeof jdir) { memcpy(jdir, p, (size_t)(slash - p)); jdir[slash - p] = 0; }
+        }
         if (jfd[fd] && logfd >= 0) {
             /* which file an fd refers to (logged whether armed or not; not a counted call) */
             const char *base = strrchr(p, '/');
@@ -84,6 +94,10 @@ static void track(int fd, const char *p) {
             char b[200];
             int n = snprintf(b, sizeof b, "0 open:%s %d 0 %d\n", base, fd, fd);
             real_write(logfd, b, n);
+            if ((flags & O_CREAT) && is_armed()) {
+                n = snprintf(b, sizeof b, "0 create:%s %d 0 %d\n", base, fd, fd);
+                real_write(logfd, b, n);
+            }
         }
     }
 }
@@ -93,7 +107,7 @@ int open(const char *p, int flags, ...) {
     mode_t m = 0;
     if (flags & (O_CREAT | O_TMPFILE)) { va_list ap; va_start(ap, flags); m = va_arg(ap, mode_t); va_end(ap); }
     int fd = real_open(p, flags, m);
-    track(fd, p);
+    track(fd, p, flags);
     return fd;
 }
 int open64(const char *p, int flags, ...) {
@@ -101,7 +115,7 @@ int open64(const char *p, int flags, ...) {
     mode_t m = 0;
     if (flags & (O_CREAT | O_TMPFILE)) { va_list ap; va_start(ap, flags); m = va_arg(ap, mode_t); va_end(ap); }
     int fd = real_open64 ? real_open64(p, flags, m) : real_open(p, flags, m);
-    track(fd, p);
+    track(fd, p, flags);
     return fd;
 }
 int openat(int d, const char *p, int flags, ...) {
@@ -109,7 +123,7 @@ int openat(int d, const char *p, int flags, ...) {
     mode_t m = 0;
     if (flags & (O_CREAT | O_TMPFILE)) { va_list ap; va_start(ap, flags); m = va_arg(ap, mode_t); va_end(ap); }
     int fd = real_openat(d, p, flags, m);
-    track(fd, p);
+    track(fd, p, flags);
     return fd;
 }
 int close(int fd) {
@@ -154,6 +168,13 @@ ssize_t write(int fd, const void *buf, size_t n) {
 int fsync(int fd) {
     init();
     cur_fd = fd;
+    if (fd >= 0 && fd < 4096 && !jfd[fd] && jdir[0] && logfd >= 0 && is_armed()) {
+        /* fsync of the journal directory? (logged, not counted) */
+        char lp[64], tgt[1024];
+        snprintf(lp, sizeof lp, "/proc/self/fd/%d", fd);
+        ssize_t k = readlink(lp, tgt, sizeof tgt - 1);
+        if (k > 0) { tgt[k] = 0; if (strcmp(tgt, jdir) == 0) { int r = real_fsync(fd); char b[120]; int n = snprintf(b, sizeof b, "0 dirsync 0 %d %d\n", r, fd); real_write(logfd, b, n); return r; } }
+    }
     if (fd < 0 || fd >= 4096 || !jfd[fd]) return real_fsync(fd);
     if (gate()) { note("fsync-fail", 0, -fail_errno); errno = (int)fail_errno; return -1; }
     int r = real_fsync(fd);
